@@ -228,11 +228,11 @@ var plans = map[string]Plan{
 	},
 	"C17": {
 		Level: "fault_enumeration",
-		Rule: "cases are sandboxes (Thrift sources in a layout, output dir fresh or pre-populated, 0-3 scripted plugins returning files) run through the real thriftrw binary with the whole sandbox snapshotted (path, mode, SHA-256) before and after. Complete grids: 11 plugin path shapes x {independent; equal to a core path with bytes of its own / exactly the core-generated bytes / those bytes with one byte changed; equal to another plugin's path with bytes of its own / identical bytes} x pre-population (132); k-th of n modules fails x 5 failure kinds (500); failing plugin i of n x 20 handshake/generate failure kinds (240); 11 thrift-root / out-dir layouts (396); plus random combinations. " +
-			"Oracle: nothing outside the output dir changes; exit != 0 => snapshot unchanged; same destination from two sources => error, whatever the two contents are; exit 0 => exactly the predicted files exist with the predicted contents. " +
+		Rule: "cases are sandboxes (Thrift sources in a layout, output dir fresh or pre-populated, 0-3 scripted plugins returning files - plugins of different names, or several instances of one plugin started with different arguments) run through the real thriftrw binary with the whole sandbox snapshotted (path, mode, SHA-256) before and after. Complete grids: 11 plugin path shapes x {independent; equal to a core path with bytes of its own / exactly the core-generated bytes / those bytes with one byte changed; equal to another plugin's path with bytes of its own / identical bytes; equal to the path of a second instance of the same plugin, likewise} x pre-population (176); k-th of n modules fails x 5 failure kinds (500); failing plugin i of n x 22 handshake/generate failure kinds (264); 18 thrift-root / out-dir layouts incl. sibling directories and files that differ in letter case only, below and beside the root (648); plus random combinations (a quarter with one or two path components of a drawn layout re-spelled in another case; a third of the later plugins being a further instance of an earlier one). " +
+			"Oracle: nothing outside the output dir changes; exit != 0 => snapshot unchanged; same destination from two sources (core / plugin process, whatever the plugins' names) => error, whatever the two contents are; exit 0 => exactly the predicted files exist with the predicted contents. " +
 			"Non-trivial: a plugin path that is not a plain relative path, or a case that must fail. Distinct: SHA-256 of the case JSON.",
 		Assumptions: []string{
-			"lexical cleaning is the meaning of 'the same path' (no symlinks in the sandbox); only handshake- and generate-phase plugin failures are injected (as the statement lists); write-phase I/O errors are outside the statement (see DESIGN.md)",
+			"lexical cleaning is the meaning of 'the same path' (no symlinks in the sandbox; the file system is case-sensitive, names differing in case are different paths); two processes of one plugin executable are two sources, one process returning two spellings of one destination is not exercised; only handshake- and generate-phase plugin failures are injected (as the statement lists); write-phase I/O errors are outside the statement (see DESIGN.md)",
 			"the bytes the core generator produces for a path are learnt from a preliminary run of the same command line without plugins in a sandbox at the same absolute path; if that run fails the plugin returns a fixed text instead (the case then must fail anyway)",
 		},
 		Prebuild: []Prebuild{{Name: "thriftrw", Pkg: "go.uber.org/thriftrw"}, {Name: "fakeplugin", Pkg: "verif/harness/fakeplugin"}},
